@@ -539,11 +539,14 @@ def _build_decay_modes(
     mother = next(iter(dc_dict.keys()))
     dms = dc_dict[mother]
 
-    for dm in dms:
-        # Single decay chains are allowed, which means a particle cannot have 2 decay modes
-        if mother in decay_modes:
-            raise RuntimeError("Input is not a single decay chain!") from None
+    # Single decay chains are allowed, which means a particle cannot have 2 decay modes
+    if len(dms) > 1:
+        raise RuntimeError("Input is not a single decay chain!") from None
 
+    # The same particle may occur several times in a chain, always with the same decay
+    previous = decay_modes.pop(mother, None)
+
+    for dm in dms:
         try:
             fs = dm["fs"]
         except Exception as e:
@@ -568,6 +571,9 @@ def _build_decay_modes(
             # Create the decay mode now that none of its particles
             # has a sub-decay
             decay_modes[mother] = DecayMode.from_dict(d)
+
+        if previous is not None and previous.to_dict() != decay_modes[mother].to_dict():
+            raise RuntimeError("Input is not a single decay chain!") from None
 
 
 T = typing.TypeVar("T")
